@@ -64,14 +64,6 @@ theorem surviving_container_unlogged (s : St R) (id : Nat)
 
 /-! ### D14 (fixed in /repo): the old order of the deferred calls -/
 
-scoped instance intAlg : ResAlg Int where
-  zero := 0
-  add_assoc := Int.add_assoc
-  add_comm := Int.add_comm
-  zero_add := Int.zero_add
-  neg_add := Int.add_left_neg
-  sub_def := fun _ _ => Int.sub_eq_add_neg
-
 def s0 : St Int := { usage := fun _ => 0 }
 def plan1 : Plan Int := [("n1", [(1, 5)])]
 
